@@ -18,20 +18,20 @@ from ..domains import estimates as E
 
 TWO_HASH_SEEDS = ('quick', 'thorough')   # tiers in which the space is walked under a second PYTHONHASHSEED
 LEVEL = 'exploration'
-H_UNITS = ['kcal/mol', 'kJ/mol', 'J/mol', 'cal/mol', 'eV/molecule']
+H_UNITS = ['kcal/mol', 'kJ/mol', 'J/mol', 'cal/mol', 'eV/molecule', 'daJ/mol']
 S_UNITS = ['cal/(mol*K)', 'J/mol/K', 'kJ/(mol K)', 'cal/mol/K']
 T_UNITS = ['K', 'kK', 'mK']
 # my own factors to SI (J/mol, J/mol/K, K)
 NA = 6.02214076e23
 H_FACT = {'kcal/mol': 4184.0, 'kJ/mol': 1e3, 'J/mol': 1.0, 'cal/mol': 4.184,
-          'eV/molecule': 1.602176634e-19 * NA}
+          'eV/molecule': 1.602176634e-19 * NA, 'daJ/mol': 10.0}
 S_FACT = {'cal/(mol*K)': 4.184, 'J/mol/K': 1.0, 'kJ/(mol K)': 1e3, 'cal/mol/K': 4.184}
 T_FACT = {'K': 1.0, 'kK': 1e3, 'mK': 1e-3}
 MODES = ['default', 'explicit', 'nd']
 SCHEME = E.SCHEME
 GROUP = 'C(C)(H)3'
 BOUND = {'quick': '96 records x 54 mode combinations (3 modes for each of H, S, Cp '
-                  'x 2 temperature modes), units rotating through 5 enthalpy, 4 '
+                  'x 2 temperature modes), units rotating through 6 enthalpy, 4 '
                   'entropy/heat-capacity and 3 temperature units; 4 missing-unit '
                   'files per record class',
          'thorough': 'additionally the full product of modes and units for a '
@@ -262,7 +262,7 @@ def presentations_rotating(i):
     for mH, mS, mC in itertools.product(MODES, repeat=3):
         for mT in ('default', 'explicit'):
             k = i + n
-            yield (mH, mS, mC, mT, H_UNITS[k % 5], S_UNITS[(k // 2) % 4],
+            yield (mH, mS, mC, mT, H_UNITS[k % len(H_UNITS)], S_UNITS[(k // 2) % 4],
                    S_UNITS[(k // 3) % 4], T_UNITS[k % 3])
             n += 1
 
